@@ -9,8 +9,10 @@ OUT = os.path.join(V, "checker/selftest/variants")
 VARIANTS = []
 
 
-def v(prop, name, file, old, new, rule=None, construct="", why="", silent=False, edits=None):
+def v(prop, name, file, old, new, rule=None, construct="", why="", silent=False, edits=None, patch=None):
     d = {"why": why}
+    if patch:
+        d["patch"] = patch
     if edits:
         d["edits"] = edits
     else:
@@ -2064,6 +2066,34 @@ v("C20", "client-read-ahead", "inprocgrpc/in_process.go",
 				}
 			}
 			return err""", "R6", "", "the client polls for the next frame after each receive and parks it: the server gets one more message ahead")
+
+# ------------------------------------------------------------------ faults seeded into REFACTORED forms (patch + edit)
+v("C14", "map-table-wrong-row", "httpgrpc/codes.go", "	codes.NotFound:           http.StatusNotFound,", "	codes.NotFound:           http.StatusGone,", "R1", "row:NotFound",
+  "the forward table as a map literal (refactoring D2-r4) with one row changed", patch="refactors/D2-r4/patch.diff")
+v("C14", "map-table-missing-default", "httpgrpc/codes.go", "	return http.StatusInternalServerError\n}\n\n// httpStatusByCode", "	return http.StatusOK\n}\n\n// httpStatusByCode", "R1", "row:default",
+  "map-table form: codes absent from the table map to 200", patch="refactors/D2-r4/patch.diff")
+v("C03", "helper-fanout-dropped", "inprocgrpc/in_process.go", "	s.trailers = md\n	s.copts.SetTrailers(s.trailers)\n", "	s.trailers = md\n", "R3", "SetTrailers",
+  "after refactoring A-r1 (setTrailersLocked helper): the helper forgets the call-option fan-out", patch="refactors/A-r1/patch.diff")
+v("C12", "split-helper-no-length-check", "inprocgrpc/in_process.go", "	if len(strs) != 2 {\n		return \"\", \"\", status.Errorf(codes.Unimplemented, \"malformed method name: %q\", fullMethod)\n	}\n", "", "R1", "",
+  "after refactoring B-r1 (splitMethodName helper): the helper indexes strs[1] without the length check", patch="refactors/B-r1/patch.diff")
+v("C13", "helper-secure-flag-constant", "httpgrpc/client.go", "	return reqUrl.String(), reqUrl.Scheme == \"https\"", "	return reqUrl.String(), true", "R1", "secure-arg",
+  "after refactoring C-r1 (methodURL helper): the helper reports every URL as secure", patch="refactors/C-r1/patch.diff")
+v("C02", "helper-no-ok-rewrite", "httpgrpc/server.go", "	if st.Code() == codes.OK {", "	if st.Code() == codes.Unknown {", "R2", "ok-rewrite",
+  "after refactoring D-r1 (statusFromHandlerError helper): the helper rewrites Unknown instead of OK", patch="refactors/D-r1/patch.diff")
+v("C15", "assert-helper-returns-on-mismatch", "server.go", "		panic(fmt.Sprintf(\"service %s: handler of type %v does not satisfy %v\", desc.ServiceName, st, ht))", "		return", "R1", "type-checked",
+  "after refactoring F-r1 (checkHandlerType helper): the helper returns instead of panicking on an ill-typed handler", patch="refactors/F-r1/patch.diff")
+v("C05", "virtual-closure-no-close", "inprocgrpc/in_process.go", "", "", silent=True, why="refactoring B-r2 (goroutine bodies as methods) as is", patch="refactors/B-r2/patch.diff")
+v("C08", "two-entry-points-probe-dropped", "inprocgrpc/in_process.go", "	err := s.recvMsgLocked(m)\n	if err == nil {\n		err = s.ensureNoMoreLocked(m)\n	}\n	return err", "	return s.recvMsgLocked(m)", "R1", "probe",
+  "after refactoring A2-r1 (recvOnlyMsgLocked entry point): the single-response entry point forgets the probe", patch="refactors/A2-r1/patch.diff")
+v("C07", "full-read-helper-short-read", "httpgrpc/io.go", "	_, err := io.ReadAtLeast(in, msg, int(sz))\n	return msg, err", "	_, err := io.ReadAtLeast(in, msg, 1)\n	return msg, err", "R3", "",
+  "after refactoring E2-r2 (readMessageBytes helper): the helper accepts a short read", patch="refactors/E2-r2/patch.diff")
+v("C11", "final-frame-wrapper-not-final", "httpgrpc/io.go", "	return writeDelimitedMessage(w, codec, m, true)", "	return writeDelimitedMessage(w, codec, m, false)", "R4", "one-trailer",
+  "after refactoring E2-r1 (writeFinalProtoMessage entry point): the final-frame entry point writes a data frame", patch="refactors/E2-r1/patch.diff")
+
+v("C09", "map-table-wrong-unit", "httpgrpc/server.go", "	'M': time.Minute,", "	'M': time.Millisecond,", "R2", "unit:M",
+  "the timeout unit table as a map literal (refactoring D2-r4) with the minutes entry wrong", patch="refactors/D2-r4/patch.diff")
+v("C09", "map-table-no-zero-guard", "httpgrpc/server.go", "			if unit != 0 {", "			if true {", "R2", "unknown-unit",
+  "map-table form: an unknown suffix (zero unit) is multiplied anyway: immediate expiry instead of no deadline", patch="refactors/D2-r4/patch.diff")
 
 
 def main():
